@@ -84,6 +84,11 @@ class PreconditionsParser:
                     continue
 
                 # no support on not for compound logical expressions
+                if inner_node[0] not in domain_predicates:
+                    raise SyntaxError(
+                        f"Unsupported negated precondition node: {precondition_node}"
+                    )
+
                 precondition_root.add_condition(
                     parse_untyped_predicate(
                         inner_node,
@@ -159,7 +164,8 @@ class PreconditionsParser:
                 continue
 
             else:
-                self.logger.error(f"Unknown precondition node: {precondition_node}")
-                return None
+                raise SyntaxError(
+                    f"Unsupported precondition node: {precondition_node}"
+                )
 
         return precondition_root
